@@ -29,7 +29,7 @@ import core
 from ser import Ser, Ids, Unsupported, rat
 
 LEAN_MODULE = "Optyx.Props.C16"
-EXTRA_MODULES = ["Optyx.Props.PinsC16", "Optyx.Props.VarsTie", "Optyx.Props.VarsStepTie"]   # transcription anchors (harness/source_pins.py)
+EXTRA_MODULES = ["Optyx.Props.PinsC16", "Optyx.Props.VarsTie", "Optyx.Props.VarsStepTie", "Optyx.Props.SpineTie"]   # transcription anchors (harness/source_pins.py)
 THEOREMS = [
     "Optyx.Props.C16.problemVariables_spec",
     "Optyx.Props.C16.generalVariables_spec",
@@ -51,6 +51,12 @@ THEOREMS = [
     "Optyx.Props.VarsStepTie.exprVars_step",
     "Optyx.Props.VarsStepTie.step_unique",
     "Optyx.Props.VarsStepTie.matrixVariableGetVariables_text",
+    "Optyx.Props.SpineTie.depthC_step",
+    "Optyx.Props.SpineTie.depthE_step",
+    "Optyx.Props.SpineTie.spineBU_step",
+    "Optyx.Props.SpineTie.depthG_eq",
+    "Optyx.Props.SpineTie.compileSwitch_eq",
+    "Optyx.Props.SpineTie.getAllVariables_eq",
     "Optyx.Props.PinsC16.anchors",
 ]
 ASSUMPTIONS = [
